@@ -37,3 +37,10 @@ package http
 //@ func NewServer
 //@   returns (s)
 //@   ensures[C16.new] s != nil && s.w == witness
+
+// The routes are matched on the request path as sent: without this the router redirects "cleaned" paths, and a request
+// naming an odd log ID ("./<id>", "x/../<id>") ends up at another log's checkpoint instead of 404 (C16).
+//@ func (*Server).RegisterHandlers
+//@   requires s != nil && r != nil
+//@   modifies heap, mux_skipclean
+//@   ensures[C16.route] mux_skipclean[r]
